@@ -204,7 +204,20 @@ def polyroots(ctx, coeffs, maxsteps=50, cleanup=True, extraprec=10,
                     roots[i] = roots[i].real
                 elif abs(ctx._re(roots[i])) < tol:
                     roots[i] = roots[i].imag * 1j
-        roots.sort(key=lambda x: (abs(ctx._im(x)), ctx._re(x)))
+        # Sort by |imaginary part| and then by real part. Values that agree
+        # to within the tolerance get the same rank, so that conjugate
+        # roots (equal only up to rounding) stay next to each other.
+        def ranks(vals):
+            order = sorted(range(deg), key=lambda i: vals[i])
+            rank = [0]*deg
+            for a, b in zip(order, order[1:]):
+                rank[b] = rank[a] + (vals[b] - vals[a] > 8*tol*max(1, abs(vals[b])))
+            return rank
+        imrank = ranks([abs(ctx._im(r)) for r in roots])
+        rerank = ranks([ctx._re(r) for r in roots])
+        order = sorted(range(deg), key=lambda i: (imrank[i], rerank[i],
+            abs(ctx._im(roots[i])), ctx._re(roots[i])))
+        roots = [roots[i] for i in order]
     if error:
         err = max(err)
         err = max(err, ctx.ldexp(1, -orig+1))
